@@ -865,6 +865,7 @@ def execute_link(desc):
             saved_path, saved_argv = list(sys.path), list(sys.argv)
             err = io.StringIO()
             try:
+                sys.path[:] = [p_ for p_ in sys.path if p_ != W.root]   # only what `hy FILE` itself puts on the path
                 sys.path.insert(0, "")                 # what hy_main does first
                 hy.cmdline.set_path(link)              # what `hy FILE` does next
                 with contextlib.redirect_stderr(err), contextlib.redirect_stdout(io.StringIO()):
